@@ -163,12 +163,15 @@ def gamma(
         params["log_moneyness"] = (spot / params["strike"]).log()
 
     tensor_delta = delta(pricer, create_graph=True, **params).requires_grad_()
-    return torch.autograd.grad(
+    output = torch.autograd.grad(
         tensor_delta,
         inputs=spot,
         grad_outputs=torch.ones_like(tensor_delta),
         create_graph=create_graph,
+        allow_unused=True,
     )[0]
+    # delta does not depend on spot if the price is affine in spot: gamma is zero
+    return output if output is not None else torch.zeros_like(spot)
 
 
 def gamma_from_delta(
